@@ -238,7 +238,45 @@ BuildOrder(s) ==
   IN [fam |-> "order", main |-> "a", layout |-> "oneline", files |-> [k \in DOMAIN (<<main>> \o rest) |-> Doc((<<main>> \o rest)[k])]]
 
 -----------------------------------------------------------------------------
-Space == CASE Family = "order" -> OrderSpace
+(* C15 / C16 / C17: trees of every item kind, member mixes, types nested to depth 4, package depth 1-3, *)
+(* plus a second file in another package that references the item in several positions                *)
+
+Foo == Named(<<"Foo">>)
+SymTypes == {Prim("int"), Foo, Arr(Str), Lst(Foo), Mp(Str, Arr(Foo)), Lst(Mp(Str, Arr(Prim("long")))),
+             Mp(Str, Lst(Mp(Str, Arr(Foo)))), Arr(Arr(Prim("byte")))}
+SymPairs == {<<Prim("int"), Foo>>, <<Foo, Arr(Str)>>, <<Lst(Foo), Mp(Str, Arr(Foo))>>,
+             <<Mp(Str, Lst(Mp(Str, Arr(Foo)))), Prim("int")>>, <<Arr(Arr(Prim("byte"))), Lst(Mp(Str, Arr(Prim("long"))))>>}
+IShapes == {[s |-> "m0"]} \cup [s : {"m1"}, t : SymTypes] \cup [s : {"m2"}, tu : SymPairs] \cup [s : {"c"}, t : {Prim("int"), Arr(Str)}]
+PShapes == [s : {"f"}, t : SymTypes] \cup [s : {"c"}, t : {Prim("int"), Arr(Str)}]
+MaxMembers == IF Thorough THEN 3 ELSE 2
+SymPkgs == {<<"p">>, <<"p", "q">>, <<"a", "b", "c">>}
+
+SymSpace == [fam : {"sym"}, kind : {"interface"}, pkg : SymPkgs, ms : UNION {[1..n -> IShapes] : n \in 0..MaxMembers}]
+            \cup [fam : {"sym"}, kind : {"parcelable"}, pkg : SymPkgs, ms : UNION {[1..n -> PShapes] : n \in 0..MaxMembers}]
+            \cup [fam : {"sym"}, kind : {"enum"}, pkg : SymPkgs, ms : {<<>>, <<"A">>, <<"A", "B">>, <<"A", "B", "C">>}]
+
+BuildSym(s) ==
+  LET nm(k) == ToString(k)
+      IMem(k) == LET x == s.ms[k] IN
+                 CASE x.s = "m0" -> Method(FALSE, Void, "f" \o nm(k), <<>>, "")
+                   [] x.s = "m1" -> Method(FALSE, x.t, "g" \o nm(k), <<Arg("in", x.t, "x")>>, "")
+                   [] x.s = "m2" -> Method(k = 2, Void, "h" \o nm(k), <<Arg("in", x.tu[1], "a"), Arg("out", x.tu[2], "")>>, nm(k))
+                   [] x.s = "c" -> Const(x.t, "K" \o nm(k))
+      PMem(k) == LET x == s.ms[k] IN
+                 IF x.s = "f" THEN Field(x.t, "v" \o nm(k)) ELSE Const(x.t, "K" \o nm(k))
+      members == CASE s.kind = "interface" -> [k \in DOMAIN s.ms |-> IMem(k)]
+                   [] s.kind = "parcelable" -> [k \in DOMAIN s.ms |-> PMem(k)]
+                   [] OTHER -> s.ms
+      imps == IF s.kind = "enum" THEN <<>> ELSE <<<<"x", "Foo">>>>
+      main == File("a", s.pkg, imps, <<>>, s.kind, "Main", FALSE, members)
+      ref == File("r", <<"r">>, <<s.pkg \o <<"Main">>>>, <<>>, "interface", "R", FALSE,
+                  <<Method(FALSE, Arr(Named(<<"Main">>)), "use", <<Arg("in", Named(<<"Main">>), "m"),
+                                                                   Arg("in", Mp(Str, Lst(Named(<<"Main">>))), "")>>, "")>>)
+  IN Scenario("sym", <<main, ref, ItemFile("foo", <<"x">>, "parcelable", "Foo")>>, "a")
+
+-----------------------------------------------------------------------------
+Space == CASE Family = "sym" -> SymSpace
+           [] Family = "order" -> OrderSpace
            [] Family = "dir" -> DirSpace
            [] Family = "cont" -> ContSpace
            [] Family = "meth" -> MethSpace
@@ -246,7 +284,8 @@ Space == CASE Family = "order" -> OrderSpace
            [] Family = "res" -> ResSpace
            [] Family = "imp" -> ImpSpace
 
-Build(s) == CASE s.fam = "order" -> BuildOrder(s)
+Build(s) == CASE s.fam = "sym" -> BuildSym(s)
+              [] s.fam = "order" -> BuildOrder(s)
               [] s.fam = "dir" -> BuildDir(s)
               [] s.fam \in {"cont", "cont2"} -> BuildCont(s)
               [] s.fam = "meth" -> BuildMeth(s)
